@@ -1,56 +1,32 @@
 """C03 - string, escape, environment and comment lexing decode as specified (DESIGN 4/C03)."""
-import shutil
-
-import lexbuild
-import runner
-from runner import run_property
+from props.common import run_with
 from props.lexcommon import lex_step_obs
 
+NEEDS_LEXER = True
 FUNCS = ["every rule action of lexer.l (INITIAL, comment, dq_str, sq_str, <<EOF>>)", "qputc", "qput", "qbeg", "qend", "qstr", "trim_whitespace"]
 
 
-TABLES = None
-
-
-def obligations(tier):
-    obs = lex_step_obs(TABLES, ["CHK_C03", "CHK_C15"], tier, "c03", windows=[4], checks="none")
+def build_obs(tier, tables):
+    obs = lex_step_obs(tables, ["CHK_C03", "CHK_C15"], tier, "c03", windows=[4], checks="none")
     # longer window (room for ${NAME:-default}, \\x41, 4-digit escapes, longer words) on one scratch variant
-    obs += lex_step_obs(TABLES, ["CHK_C03", "CHK_C15"], tier, "c03", windows=[7] if tier == "quick" else [7, 9], checks="none",
+    obs += lex_step_obs(tables, ["CHK_C03", "CHK_C15"], tier, "c03", windows=[7] if tier == "quick" else [7, 9], checks="none",
                         variants=("fill2", "fill5"), envw=2 if tier == "quick" else 3)
     return obs
 
 
-def prepare(scratch, tier="quick"):
-    global TABLES
-    info = lexbuild.prepare_lexer(scratch, tier)
-    TABLES = info["tables"]
-    return info
-
-
 def run(tier, seed):
-    scratch = runner.make_scratch()
-    try:
-        try:
-            info = prepare(scratch, tier)
-        except lexbuild.Inconclusive as e:
-            print("INCONCLUSIVE property=C03: %s" % e)
-            return 2
-        return run_property(
-            "C03", obligations(tier), tier, seed=seed, functions=FUNCS, scratch=scratch,
-            bounds="one rule-match step per obligation; window of 4 bytes on every scratch variant and 7 (thorough: 9) bytes on one variant, every byte value incl. NUL = end of input; environment value <= 2 bytes, set or unset; scratch buffer unallocated or capacity 32 holding 2 / 31 / 32 arbitrary bytes (5 in INITIAL); one obligation per rule action x start condition x scratch variant",
-            assumptions=[
-                "the scanner is the flattened scanner derived from /repo's lexer.l (flex tables + verbatim actions + verbatim user code); " + info.get("translation_validation", ""),
-                "flex's buffer refill code, NUL bytes inside the input, and single rule matches longer than the window are outside the claim",
-                "whole-literal decoding follows from the step lemma by induction on the literal's length (paper argument)",
-                "reference decoder harness/lex_ref.h written from the property statement; ':' not followed by '-' inside ${...} is grey",
-                "getenv is a one-variable model that records the name asked for; sscanf(%o/%x) modelled for <= 3 digits",
-            ],
-            extra_coverage={"translation_validation": info})
-    finally:
-        shutil.rmtree(scratch, ignore_errors=True)
+    return run_with(
+        "C03", tier, seed, build_obs, needs_lexer=True, functions=FUNCS,
+        bounds="one rule-match step per obligation (rule action x start condition x scratch-buffer variant); window of 4 bytes on every scratch variant and 7 (thorough: 9) bytes on one variant, every byte value incl. NUL = end of input; environment value <= 2 (3) bytes, set or unset; scratch buffer unallocated or capacity 32 holding 2 / 31 / 32 arbitrary bytes (5 in INITIAL)",
+        assumptions=[
+            "flex's buffer refill code, NUL bytes inside the input, and single rule matches longer than the window are outside the claim",
+            "whole-literal decoding follows from the step lemma by induction on the literal's length (paper argument)",
+            "reference decoder harness/lex_ref.h written from the property statement; ':' not followed by '-' inside ${...} is grey",
+            "getenv is a one-variable model that records the name asked for; sscanf(%o/%x) modelled for <= 3 digits",
+        ])
 
 
 MANIFEST = {
-    "text": "Every scanner rule of every start condition is executed symbolically for one step on a window of arbitrary bytes and compared with a hand-written reference decoder (consumed bytes, decoded bytes, quoting context, token, diagnostics, environment lookup); SAT verdict per start condition x scratch-buffer variant. Whole literals follow by induction over steps.",
-    "note": "Flattened scanner (flex's generic buffer skeleton replaced, validated against the real flex scanner on every run); window 4-5 bytes; environment = one symbolic variable; refill/NUL bytes/long matches outside the claim.",
+    "text": "Every scanner rule action of every start condition is executed symbolically for one step on a window of arbitrary bytes and compared with a hand-written reference decoder (consumed bytes, decoded bytes, quoting context, token, diagnostics, environment lookup); one SAT query per rule action x start condition x scratch-buffer variant, table generated from the DFA of the current lexer.l. Whole literals follow by induction over steps.",
+    "note": "Flattened scanner (flex's generic buffer skeleton replaced, validated against the real flex scanner on every run); window 4-9 bytes; environment = one symbolic variable; refill/NUL bytes/long matches outside the claim.",
 }
